@@ -594,22 +594,28 @@ def run(ctx):
 
     # --- direct validation on the real code (runs while coqc works) ----------------------
     try:
-        fam = [(6, 3), (8, 5)] if ctx.quick else [(6, 3), (8, 5), (10, 5), (14, 7), (20, 9)]
         kinds = ["T", "v", "f", "all", "hom"]
+        if ctx.quick:
+            plan = [(6, 3, nP, k) for nP in (1, 2) for k in kinds] + \
+                   [(8, 5, nP, k) for nP in (1, 2) for k in ("all", "T")]
+        else:
+            plan = [(M, N, nP, k) for (M, N) in ((6, 3), (8, 5), (10, 5), (7, 3), (12, 3))
+                    for nP in (1, 2) for k in kinds for _ in range(2)] + \
+                   [(M, N, nP, k) for (M, N, nP) in ((14, 7, 1), (14, 7, 2), (20, 5, 2),
+                                                     (24, 9, 1), (40, 3, 2))
+                    for k in ("all", "T", "v")]
         nfam = 0
-        for (M, N) in fam:
-            for nP in (1, 2):
-                for kind in (kinds if (ctx.quick is False or (M, N) == fam[0]) else ["all", "T"]):
-                    case = rand_case(rng, M, N, nP, kind)
-                    try:
-                        check_family(case, report)
-                    except Exception as ex:
-                        report("solver raised %r" % ex, dict(check="family", case=case),
-                               "raises")
-                    ctx.count("family_4bases_fd", case, bucket="%s/P%d/%dx%d" % (kind, nP, M, N))
-                    nfam += 1
-                    if nfam <= 2:
-                        ctx.sample(dict(family=case))
+        for (M, N, nP, kind) in plan:
+            case = rand_case(rng, M, N, nP, kind)
+            try:
+                check_family(case, report)
+            except Exception as ex:
+                ctx.log(traceback.format_exc())
+                report("solver raised %r" % ex, dict(check="family", case=case), "raises")
+            ctx.count("family_4bases_fd", case, bucket="%s/P%d/%dx%d" % (kind, nP, M, N))
+            nfam += 1
+            if nfam <= 2:
+                ctx.sample(dict(family=case))
         for kind in ("T", "v", "f", "all"):
             for rep in range(ctx.n(1, 4)):
                 case = rand_case(rng, 0, rng.choice([3, 5]) if not ctx.quick else 3,
